@@ -232,6 +232,50 @@ def loader_facts(fn: ast.FunctionDef | None) -> dict:
 	return f
 
 
+def binding_facts(repo: Path) -> dict:
+	"""which compiled functions the public names are: `gambit.seq.revcomp` and `gambit.kmers.index_to_kmer` are the Cython functions themselves
+	(imported, never re-bound), `gambit.kmers.revcomp` is `gambit.seq.revcomp`, and `ckmers` / `_cmetric` are the compiled modules"""
+	f = dict.fromkeys(['seqRevcomp', 'kmersIndexToKmer', 'kmersRevcomp', 'kmersModule', 'metricModule'], False)
+
+	def tree_of(path):
+		try:
+			return ast.parse((repo / 'src' / 'gambit' / path).read_text())
+		except (SyntaxError, OSError):
+			return None
+
+	def imported_from(tree, name, module):
+		"""`from <module> import … name …` at module level, and `name` bound by nothing else anywhere at module level"""
+		if tree is None: return False
+		hits, others = 0, 0
+		for st in tree.body:
+			if isinstance(st, ast.ImportFrom):
+				for a in st.names:
+					if (a.asname or a.name) == name:
+						if st.module == module and a.asname is None and st.level == 0: hits += 1
+						else: others += 1
+			elif isinstance(st, ast.Import):
+				others += sum(1 for a in st.names if (a.asname or a.name.split('.')[0]) == name)
+			elif isinstance(st, (ast.FunctionDef, ast.ClassDef, ast.AsyncFunctionDef)):
+				others += st.name == name
+			else:
+				others += sum(1 for x in ast.walk(st) if isinstance(x, ast.Name) and x.id == name and isinstance(x.ctx, (ast.Store, ast.Del)))
+		return hits == 1 and others == 0
+
+	def module_alias(tree, alias, module):
+		if tree is None: return False
+		hits = sum(1 for st in tree.body if isinstance(st, ast.Import) for a in st.names if a.name == module and a.asname == alias)
+		stores = sum(1 for st in tree.body if not isinstance(st, (ast.Import, ast.ImportFrom)) for x in ast.walk(st)
+		             if isinstance(x, ast.Name) and x.id == alias and isinstance(x.ctx, (ast.Store, ast.Del)))
+		return hits == 1 and stores == 0
+	seq, km, me = tree_of('seq.py'), tree_of('kmers.py'), tree_of('metric.py')
+	f['seqRevcomp'] = imported_from(seq, 'revcomp', 'gambit._cython.kmers')
+	f['kmersIndexToKmer'] = imported_from(km, 'index_to_kmer', 'gambit._cython.kmers')
+	f['kmersRevcomp'] = imported_from(km, 'revcomp', 'gambit.seq')
+	f['kmersModule'] = module_alias(km, 'ckmers', 'gambit._cython.kmers')
+	f['metricModule'] = module_alias(me, '_cmetric', 'gambit._cython.metric')
+	return f
+
+
 def dist_flow_facts(repo: Path) -> dict:
 	"""`gambit dist`: which labels go with which signatures, which distance function fills the matrix, how the CSV is laid out.
 	Each fact is the presence of one statement in one place, compared as normalised text (ast.unparse), plus the absence of any other
@@ -512,6 +556,21 @@ def regenerate(repo: Path, out_dir: Path) -> dict:
 		dp.write_text(dtext)
 	report['modules']['PyDistFlow'] = hashlib.sha1(dtext.encode()).hexdigest()[:12]
 	report['functions'].append('cli/dist.py dist_cmd, cluster.py dump_dmat_csv (data flow and CSV layout, structural facts)')
+	# --- which compiled functions the public names are ---------------------------------------------------------------------------------------
+	bf = binding_facts(repo)
+	BDOC = {'seqRevcomp': '`gambit.seq.revcomp` is `gambit._cython.kmers.revcomp` itself (imported at module level, bound by nothing else)',
+	        'kmersIndexToKmer': '`gambit.kmers.index_to_kmer` is `gambit._cython.kmers.index_to_kmer` itself',
+	        'kmersRevcomp': '`revcomp` in `gambit.kmers` (used by `find_kmers` and `KmerMatch.kmer`) is `gambit.seq.revcomp`',
+	        'kmersModule': '`ckmers` in `gambit.kmers` is the compiled module `gambit._cython.kmers`',
+	        'metricModule': '`_cmetric` in `gambit.metric` is the compiled module `gambit._cython.metric`'}
+	btext = ('/-\nGENERATED by harness/pytrace.py from src/gambit/seq.py, kmers.py, metric.py — do not edit.\n'
+	         'Regenerated at the start of every check; `GambitV.Tie.PyBindings` proves them.\n-/\nnamespace GambitV.Gen\n\n'
+	         + ''.join(f'/-- {BDOC[k]} -/\ndef pyBind_{k} : Bool := {b(v)}\n' for k, v in bf.items()) + '\nend GambitV.Gen\n')
+	bp = out_dir / 'PyBindings.lean'
+	if not bp.exists() or bp.read_text() != btext:
+		bp.write_text(btext)
+	report['modules']['PyBindings'] = hashlib.sha1(btext.encode()).hexdigest()[:12]
+	report['functions'].append('seq.py, kmers.py, metric.py (which compiled functions the public names are, structural facts)')
 	# --- src/gambit/results.py: the column table of the CSV exporter -----------------------------------------------------------
 	cols = None
 	try:
